@@ -114,8 +114,14 @@ def register(R):
         return {
             'cancels_all_first_iff_requested': z3.If(cancel, B(len(first) == 1 and okargs), B(len(first) == 0)),
             'waits_for_transfers': B(len(w) == 1),
-            'joins_the_three_executors_in_stage_order': executors_joined(c),
-            'executors_joined_after_wait': B(all(index_of(tr, s) > index_of(tr, w[0]) for s in shutdown_calls(tr)) if w else False),
+            # (stage order matters for termination too: a request task's done callback submits the final IO task of a ranged
+            #  download -- the IO executor must still accept work while request tasks drain: C04)
+            'joins_the_three_executors_in_stage_order': (executors_joined(c), ['C18', 'C04', 'C07']),
+            'executors_joined_after_wait': (B(all(index_of(tr, s) > index_of(tr, w[0]) for s in shutdown_calls(tr)) if w else False), ['C18', 'C04', 'C07']),
+            # a join, not a drop: the queued tasks of every stage still run (the final task of a cancelled ranged download is
+            # what announces it done and runs its cleanups)
+            'every_executor_is_joined_with_its_queued_tasks_still_run': (B(all(
+                not e.kwargs and tuple(e.args) in ((), (True,)) for e in shutdown_calls(tr))), ['C18', 'C04', 'C07']),
         }
 
     def shutdown_kbi(c):
@@ -129,7 +135,7 @@ def register(R):
         }
 
     R.contract(
-        f'{TM}._shutdown', props=['C07', 'C18'], typed=['C07'],
+        f'{TM}._shutdown', props=['C07', 'C18', 'C04'], typed=['C07'],
         params=dict(cancel=Bool, cancel_msg=ExtT('str'), exc_type=ExtT('excclass')),
         checks=shutdown_checks, raises={'KeyboardInterrupt': shutdown_kbi},
         raise_when={'KeyboardInterrupt': lambda c: None},
